@@ -27,6 +27,8 @@ type MerklePatriciaTrie struct {
 	ChangeCollector ChangeCollectorI
 	Version         Sequence
 	missingNodeKeys []Key
+	// guards missingNodeKeys: it is appended to by lookups and traversals, which only hold the read lock
+	missingKeysLock sync.Mutex
 	cache           *statecache.TransactionCache
 	deleteNodes     []Node // delete nodes that added when sync from remote
 }
@@ -76,13 +78,17 @@ func (mpt *MerklePatriciaTrie) getNode(key Key) (n Node, err error) {
 }
 
 func (mpt *MerklePatriciaTrie) addMissingNodeKeys(key Key) {
+	mpt.missingKeysLock.Lock()
 	mpt.missingNodeKeys = append(mpt.missingNodeKeys, key)
+	mpt.missingKeysLock.Unlock()
 }
 
 func (mpt *MerklePatriciaTrie) GetMissingNodeKeys() []Key {
 	mpt.mutex.RLock()
+	mpt.missingKeysLock.Lock()
 	keys := make([]Key, len(mpt.missingNodeKeys))
 	copy(keys, mpt.missingNodeKeys)
+	mpt.missingKeysLock.Unlock()
 	mpt.mutex.RUnlock()
 	return keys
 }
